@@ -40,7 +40,7 @@ theorem dropLastIf_append {c : Char} (p s : List Char) (hp : ∃ x r, p.reverse 
     · rw [List.dropLast_append_of_ne_nil (by simp)]
     · rfl
 
-theorem stripTrailingNl_append (p s : List Char) (hp : ∃ x r, p.reverse = x :: r ∧ isWs x = false) :
+theorem stripTrailingNl_append (p s : List Char) (hp : ∃ x r, p.reverse = x :: r ∧ isNl x = false) :
     stripTrailingNl (p ++ s) = p ++ stripTrailingNl s := by
   obtain ⟨x, r, hr, hx⟩ := hp
   have h1 : x ≠ '\n' := by rintro rfl; revert hx; decide
@@ -48,20 +48,149 @@ theorem stripTrailingNl_append (p s : List Char) (hp : ∃ x r, p.reverse = x ::
   unfold stripTrailingNl
   rw [dropLastIf_append p s ⟨x, r, hr, h1⟩, dropLastIf_append p _ ⟨x, r, hr, h2⟩]
 
+theorem endNotNl_rev {p : List Char} (h : endNotNl p = true) : ∃ x r, p.reverse = x :: r ∧ isNl x = false := by
+  unfold endNotNl at h
+  cases hr : p.reverse with
+  | nil => simp [hr] at h
+  | cons c r => exact ⟨c, r, rfl, by simpa [hr] using h⟩
+
+theorem identCont_not_nl {c : Char} (h : isIdentCont c = true) : isNl c = false := by
+  cases hn : isNl c with
+  | false => rfl
+  | true =>
+    simp only [isNl, Bool.or_eq_true, decide_eq_true_eq] at hn
+    rcases hn with rfl | rfl <;> revert h <;> decide
+
+/-- a token that is not blank ends in a character that is not a line break -/
+theorem tok_last_not_nl {t : Tok} (hwf : t.wf = true) (hws : t.isWs = false) :
+    ∃ x r, t.src.reverse = x :: r ∧ isNl x = false := by
+  cases t with
+  | ws s => simp [Tok.isWs] at hws
+  | ident s =>
+    cases s with
+    | nil => simp [Tok.wf] at hwf
+    | cons c cs =>
+      simp only [Tok.wf, Bool.and_eq_true, List.all_eq_true] at hwf
+      have hall : ∀ x ∈ c :: cs, isIdentCont x = true := by
+        intro x hx
+        rcases List.mem_cons.1 hx with rfl | hx
+        · exact identStart_identCont hwf.1
+        · exact hwf.2 x hx
+      cases hr : (c :: cs).reverse with
+      | nil => simp at hr
+      | cons x r =>
+        exact ⟨x, r, by simp [Tok.src, hr], identCont_not_nl (hall x (by
+          have : x ∈ (c :: cs).reverse := by rw [hr]; simp
+          exact List.mem_reverse.1 this))⟩
+  | int ds =>
+    simp only [Tok.wf, Bool.and_eq_true, List.all_eq_true, List.isEmpty_eq_false_iff, Bool.not_eq_true',
+      List.isEmpty_eq_false_iff] at hwf
+    cases hr : ds.reverse with
+    | nil =>
+      have : ds = [] := by simpa using hr
+      simp [this] at hwf
+    | cons x r =>
+      refine ⟨x, r, by simp [Tok.src, hr], identCont_not_nl (digit_identCont (hwf.1.2 x ?_))⟩
+      have : x ∈ ds.reverse := by rw [hr]; simp
+      simpa using this
+  | str q body =>
+    simp only [Tok.wf, Bool.and_eq_true, Bool.or_eq_true, decide_eq_true_eq] at hwf
+    refine ⟨q, body.reverse ++ [q], by simp [Tok.src], ?_⟩
+    rcases hwf.1 with rfl | rfl <;> decide
+  | op c =>
+    simp only [Tok.wf, Option.isSome_iff_exists] at hwf
+    obtain ⟨dl, hdl⟩ := hwf
+    exact ⟨c, [], rfl, isWs_false_not_nl (singleOp_not_isWs hdl)⟩
+  | op2 a b =>
+    simp only [Tok.wf, twoCharOp, Bool.or_eq_true, Bool.and_eq_true, decide_eq_true_eq] at hwf
+    refine ⟨b, [a], rfl, ?_⟩
+    rcases hwf with (((((⟨_, rfl⟩ | ⟨_, rfl⟩) | ⟨_, rfl⟩) | ⟨_, rfl⟩) | ⟨_, rfl⟩) | ⟨_, rfl⟩) <;> decide
+
+/-- the interior of a line statement does not end in a line break -/
+theorem line_interior_last (ts : List Tok) :
+    ∀ (bal : Int) (fol : List Char), lineInteriorOk bal ts fol = true → ts ≠ [] →
+      ∃ x r, (srcs ts).reverse = x :: r ∧ isNl x = false := by
+  induction ts with
+  | nil => intro _ _ _ h; exact absurd rfl h
+  | cons t ts ih =>
+    intro bal fol h _
+    simp only [lineInteriorOk, Bool.and_eq_true] at h
+    obtain ⟨⟨⟨hwf, _⟩, hws⟩, hrest⟩ := h
+    cases ts with
+    | nil =>
+      have hnw : t.isWs = false := by
+        cases hw : t.isWs with
+        | false => rfl
+        | true =>
+          exfalso
+          have hd : t.delta = 0 := by cases t <;> simp_all [Tok.isWs, Tok.delta]
+          simp only [lineInteriorOk, hd, Int.add_zero, beq_iff_eq] at hrest
+          simp [hw, hrest] at hws
+      obtain ⟨x, r, hx, hn⟩ := tok_last_not_nl hwf hnw
+      exact ⟨x, r, by simpa [srcs] using hx, hn⟩
+    | cons t2 ts2 =>
+      obtain ⟨x, r, hx, hn⟩ := ih _ _ hrest (by simp)
+      refine ⟨x, r ++ t.src.reverse, ?_, hn⟩
+      have : srcs (t :: t2 :: ts2) = t.src ++ srcs (t2 :: ts2) := rfl
+      rw [this, List.reverse_append, hx]; rfl
+
+/-- a tag does not end in a line break -/
+theorem Tag.src_last_not_nl {d : Delims} (gd : Good d) (g : Tag) (z : List Char) (hok : tagOk d g z = true) :
+    ∃ x r, (g.src d).reverse = x :: r ∧ isNl x = false := by
+  cases hgl : g.isLine with
+  | false =>
+    obtain ⟨x, r, hx, hw⟩ := Tag.src_rev_head gd g hgl
+    exact ⟨x, r, hx, isWs_false_not_nl hw⟩
+  | true =>
+    have hown := g.own z hok
+    obtain ⟨x0, r0, hx0, hn0⟩ := endNotNl_rev (gd.lastNl _ hown)
+    cases g with
+    | mk kind l r =>
+      cases kind with
+      | lineStmt ts =>
+        simp only [tagOk, Bool.and_eq_true] at hok
+        cases hts : ts with
+        | nil => exact ⟨x0, r0, by simpa [Tag.src, Tag.after, srcs, Tag.start] using hx0, hn0⟩
+        | cons t ts' =>
+          have := hok.1.2
+          rw [hts] at this
+          obtain ⟨x, r', hx, hn⟩ := line_interior_last (t :: ts') 0 z this (by simp)
+          exact ⟨x, r' ++ (d.ls).reverse, by simp [Tag.src, Tag.after, Tag.start, List.reverse_append, hx], hn⟩
+      | lineComment body =>
+        simp only [tagOk, Bool.and_eq_true, List.all_eq_true, Bool.not_eq_true'] at hok
+        cases hr : body.reverse with
+        | nil =>
+          have : body = [] := by simpa using hr
+          subst this
+          exact ⟨x0, r0, by simpa [Tag.src, Tag.after, Tag.start] using hx0, hn0⟩
+        | cons x r' =>
+          refine ⟨x, r' ++ (d.lc).reverse, by simp [Tag.src, Tag.after, Tag.start, List.reverse_append, hr], ?_⟩
+          apply hok.1.1.2 x
+          have : x ∈ body.reverse := by rw [hr]; simp
+          simpa using this
+      | var ts => simp [Tag.isLine] at hgl
+      | block ts => simp [Tag.isLine] at hgl
+      | comment b => simp [Tag.isLine] at hgl
+      | raw c ri l2 tight => simp [Tag.isLine] at hgl
+
 /-- the source of a non-empty tail ends in its last text, preceded by something that ends in a tag -/
 theorem unparseTail_last {d : Delims} (gd : Good d) (tl : List (Tag × List Char)) (hne : tl ≠ []) :
+    ∀ (first : Bool) (t0 : List Char), tailFree d first t0 tl = true →
     ∃ p tlast, (∀ f : List Char → List Char, unparseTail d (mapLastText f tl) = p ++ f tlast) ∧
-      unparseTail d tl = p ++ tlast ∧ ∃ x r, p.reverse = x :: r ∧ isWs x = false := by
+      unparseTail d tl = p ++ tlast ∧ ∃ x r, p.reverse = x :: r ∧ isNl x = false := by
   induction tl with
   | nil => exact absurd rfl hne
   | cons a tl ih =>
     obtain ⟨g, t⟩ := a
+    intro first t0 hfree
+    have hparts : tagOk d g (t ++ unparseTail d tl) = true ∧ tailFree d false t tl = true := by
+      simp only [tailFree, Bool.and_eq_true] at hfree; exact ⟨hfree.1.1.2, hfree.2⟩
     cases tl with
     | nil =>
-      obtain ⟨x, r, hr, hx⟩ := Tag.src_rev_head gd g
+      obtain ⟨x, r, hr, hx⟩ := Tag.src_last_not_nl gd g _ hparts.1
       exact ⟨g.src d, t, by intro f; simp [mapLastText, unparseTail], by simp [unparseTail], x, r, hr, hx⟩
     | cons b tl =>
-      obtain ⟨p, tlast, h1, h2, x, r, hr, hx⟩ := ih (by simp)
+      obtain ⟨p, tlast, h1, h2, x, r, hr, hx⟩ := ih (by simp) false t hparts.2
       refine ⟨g.src d ++ (t ++ p), tlast, ?_, ?_, x, r ++ (t.reverse ++ (g.src d).reverse), ?_, hx⟩
       · intro f
         simp only [mapLastText, unparseTail] at h1 ⊢
@@ -70,7 +199,7 @@ theorem unparseTail_last {d : Delims} (gd : Good d) (tl : List (Tag × List Char
         rw [h2]; simp [List.append_assoc]
       · simp [List.reverse_append, hr]
 
-theorem prepare_unparse (cfg : Cfg) {d : Delims} (gd : Good d) (tm : Tmpl) :
+theorem prepare_unparse (cfg : Cfg) {d : Delims} (gd : Good d) (tm : Tmpl) (hfree : delimFree d tm = true) :
     prepare cfg (unparse d tm) = unparse d (if cfg.keep then tm else stripFinal tm) := by
   unfold prepare
   cases cfg.keep with
@@ -81,7 +210,7 @@ theorem prepare_unparse (cfg : Cfg) {d : Delims} (gd : Good d) (tm : Tmpl) :
     cases tail with
     | nil => simp [unparse, stripFinal, unparseTail]
     | cons a tl =>
-      obtain ⟨p, tlast, h1, h2, hp⟩ := unparseTail_last gd (a :: tl) (by simp)
+      obtain ⟨p, tlast, h1, h2, hp⟩ := unparseTail_last gd (a :: tl) (by simp) true head hfree
       simp only [unparse, stripFinal]
       rw [h1 stripTrailingNl, h2, ← List.append_assoc, ← List.append_assoc]
       apply stripTrailingNl_append
@@ -103,16 +232,11 @@ theorem startsWith_false_of_append {p x : List Char} (z : List Char) (h : starts
 
 theorem anyStart_false_of_append {d : Delims} {x : List Char} (z : List Char) (h : anyStart d (x ++ z) = false) :
     anyStart d x = false := by
-  simp only [anyStart, Bool.or_eq_false_iff, Bool.and_eq_false_iff] at h ⊢
-  obtain ⟨⟨⟨⟨h1, h2⟩, h3⟩, h4⟩, h5⟩ := h
-  refine ⟨⟨⟨⟨startsWith_false_of_append z h1, startsWith_false_of_append z h2⟩,
-    startsWith_false_of_append z h3⟩, ?_⟩, ?_⟩
-  · rcases h4 with h4 | h4
-    · exact Or.inl h4
-    · exact Or.inr (startsWith_false_of_append z h4)
-  · rcases h5 with h5 | h5
-    · exact Or.inl h5
-    · exact Or.inr (startsWith_false_of_append z h5)
+  simp only [anyStart, List.any_eq_false] at h ⊢
+  intro mp hmp
+  have := h mp hmp
+  simp only [Bool.not_eq_true] at this ⊢
+  exact startsWith_false_of_append z this
 
 theorem noStartIn_mono {d : Delims} (t f z : List Char) (h : noStartIn d t (f ++ z) = true) :
     noStartIn d t f = true := by
@@ -132,24 +256,12 @@ theorem noStartIn_append {d : Delims} (a b f : List Char) :
 
 theorem ownLongest_mono {d : Delims} (own f z : List Char) (h : ownLongest d own (f ++ z) = true) :
     ownLongest d own f = true := by
-  simp only [ownLongest, Bool.and_eq_true, Bool.or_eq_true, Bool.not_eq_true', decide_eq_true_eq] at h ⊢
-  obtain ⟨⟨⟨⟨h1, h2⟩, h3⟩, h4⟩, h5⟩ := h
-  refine ⟨⟨⟨⟨?_, ?_⟩, ?_⟩, ?_⟩, ?_⟩
-  · rcases h1 with h | h
-    · exact Or.inl (startsWith_false_of_append z h)
-    · exact Or.inr h
-  · rcases h2 with h | h
-    · exact Or.inl (startsWith_false_of_append z h)
-    · exact Or.inr h
-  · rcases h3 with h | h
-    · exact Or.inl (startsWith_false_of_append z h)
-    · exact Or.inr h
-  · rcases h4 with h | h
-    · exact Or.inl h
-    · exact Or.inr (startsWith_false_of_append z h)
-  · rcases h5 with h | h
-    · exact Or.inl h
-    · exact Or.inr (startsWith_false_of_append z h)
+  simp only [ownLongest, List.all_eq_true, Bool.or_eq_true, Bool.not_eq_true'] at h ⊢
+  intro mp hmp
+  rcases h mp hmp with (h' | h') | h'
+  · exact Or.inl (Or.inl (startsWith_false_of_append z h'))
+  · exact Or.inl (Or.inr h')
+  · exact Or.inr h'
 
 theorem noBsIn_mono {d : Delims} (c f z : List Char) (h : noBsIn d c (f ++ z) = true) :
     noBsIn d c f = true := by
@@ -170,9 +282,11 @@ theorem rawFree_mono {d : Delims} (g : Tag) (f z : List Char) (h : rawFree d g (
       simp only [rawFree] at h ⊢
       apply noBsIn_mono c _ z
       simpa [List.append_assoc] using h
-    | var tight => rfl
-    | block w tight => rfl
+    | var ts => rfl
+    | block ts => rfl
     | comment body => rfl
+    | lineStmt ts => rfl
+    | lineComment body => rfl
 
 theorem noPatIn_mono (pat c f z : List Char) (h : noPatIn pat c (f ++ z) = true) :
     noPatIn pat c f = true := by
@@ -184,53 +298,195 @@ theorem noPatIn_mono (pat c f z : List Char) (h : noPatIn pat c (f ++ z) = true)
     apply startsWith_false_of_append z
     simpa [List.append_assoc] using h.1
 
-theorem commentOk_mono {d : Delims} (g : Tag) (f z : List Char) (h : commentOk d g (f ++ z) = true) :
-    commentOk d g f = true := by
+theorem dropWhile_asciiWs_append (s z : List Char) (hne : ∃ c ∈ s, isAsciiWs c = false) :
+    (s ++ z).dropWhile isAsciiWs = s.dropWhile isAsciiWs ++ z := by
+  induction s with
+  | nil => obtain ⟨c, hc, _⟩ := hne; simp at hc
+  | cons a s ih =>
+    simp only [List.cons_append, List.dropWhile_cons]
+    split
+    · rename_i ha
+      obtain ⟨c, hc, hw⟩ := hne
+      rcases List.mem_cons.1 hc with rfl | hc'
+      · rw [ha] at hw; cases hw
+      · exact ih ⟨c, hc', hw⟩
+    · rfl
+
+theorem startsWith_dropWhile_mono (p s z : List Char) (hne : ∃ c ∈ s, isAsciiWs c = false)
+    (h : startsWith p ((s ++ z).dropWhile isAsciiWs) = false) :
+    startsWith p (s.dropWhile isAsciiWs) = false := by
+  rw [dropWhile_asciiWs_append s z hne] at h
+  exact startsWith_false_of_append z h
+
+theorem interiorOk_mono (e : List Char) (ts : List Tok) :
+    ∀ (bal : Int) (f z : List Char), f ≠ [] → interiorOk e bal ts (f ++ z) = true → interiorOk e bal ts f = true := by
+  induction ts with
+  | nil => intro bal f z _ h; exact h
+  | cons t ts ih =>
+    intro bal f z hf h
+    simp only [interiorOk, Bool.and_eq_true] at h ⊢
+    obtain ⟨⟨⟨h1, h2⟩, h3⟩, h4⟩ := h
+    refine ⟨⟨⟨h1, ?_⟩, ?_⟩, ih _ f z hf h4⟩
+    · have : (srcs ts ++ (f ++ z)).head? = (srcs ts ++ f).head? := by
+        cases hs : srcs ts with
+        | nil =>
+          cases f with
+          | nil => exact absurd rfl hf
+          | cons a f => simp
+        | cons a r => simp
+      rw [← this]; exact h2
+    · simp only [Bool.or_eq_true, Bool.not_eq_true'] at h3 ⊢
+      rcases h3 with h3 | h3
+      · exact Or.inl h3
+      · right
+        simp only [endHere, Bool.or_eq_false_iff] at h3 ⊢
+        have e1 : srcs (t :: ts) ++ (f ++ z) = (srcs (t :: ts) ++ f) ++ z := by simp [List.append_assoc]
+        rw [e1] at h3
+        refine ⟨startsWith_false_of_append z h3.1, ?_⟩
+        cases hs : srcs (t :: ts) ++ f with
+        | nil => rfl
+        | cons c r =>
+          rw [hs] at h3
+          simp only [List.cons_append] at h3
+          have := h3.2
+          simp only [Bool.and_eq_false_iff] at this ⊢
+          rcases this with h' | h'
+          · exact Or.inl h'
+          · exact Or.inr (startsWith_false_of_append z h')
+
+theorem follow_none (t : Tok) : t.follow none = true := by cases t <;> rfl
+
+theorem head?_append_prefix (a f z : List Char) :
+    (a ++ f).head? = (a ++ (f ++ z)).head? ∨ (a ++ f).head? = none := by
+  cases a with
+  | cons x a => left; simp
+  | nil =>
+    cases f with
+    | nil => right; rfl
+    | cons y f => left; simp
+
+theorem lineInteriorOk_mono (ts : List Tok) :
+    ∀ (bal : Int) (f z : List Char), lineInteriorOk bal ts (f ++ z) = true → lineInteriorOk bal ts f = true := by
+  induction ts with
+  | nil => intro bal f z h; exact h
+  | cons t ts ih =>
+    intro bal f z h
+    simp only [lineInteriorOk, Bool.and_eq_true] at h ⊢
+    obtain ⟨⟨⟨h1, h2⟩, h3⟩, h4⟩ := h
+    refine ⟨⟨⟨h1, ?_⟩, h3⟩, ih _ f z h4⟩
+    rcases head?_append_prefix (srcs ts) f z with he | he
+    · rw [he]; exact h2
+    · rw [he]; exact follow_none t
+
+theorem lineFollow_mono (f z : List Char) (h : lineFollow (f ++ z) = true) : lineFollow f = true := by
+  unfold lineFollow at h ⊢
+  by_cases hall : ∀ x ∈ f, isHws x = true
+  · rw [dropWhile_all hall]
+  · have : ∃ x, x ∈ f ∧ isHws x = false := by
+      apply Classical.byContradiction
+      intro hne
+      apply hall
+      intro x hx
+      cases hh : isHws x with
+      | true => rfl
+      | false => exact absurd ⟨x, hx, hh⟩ hne
+    obtain ⟨x, hx, hxh⟩ := this
+    -- the first non-blank character of `f` is the first one of `f ++ z`
+    have key : ∀ (l : List Char), x ∈ l → (l ++ z).dropWhile isHws = l.dropWhile isHws ++ z := by
+      intro l hl
+      induction l with
+      | nil => simp at hl
+      | cons a l ih =>
+        simp only [List.cons_append, List.dropWhile_cons]
+        split
+        · rename_i ha
+          rcases List.mem_cons.1 hl with rfl | hl'
+          · rw [ha] at hxh; cases hxh
+          · exact ih hl'
+        · rfl
+    rw [key f hx] at h
+    cases hd : f.dropWhile isHws with
+    | nil => rfl
+    | cons c r => rw [hd] at h; exact h
+
+theorem commentFollow_mono (f z : List Char) (h : commentFollow (f ++ z) = true) : commentFollow f = true := by
+  cases f with
+  | nil => rfl
+  | cons c r => exact h
+
+theorem tagOk_mono {d : Delims} (gd : Good d) (g : Tag) (f z : List Char) (h : tagOk d g (f ++ z) = true) :
+    tagOk d g f = true := by
   cases g with
   | mk kind l r =>
     cases kind with
     | comment body =>
-      simp only [commentOk, Bool.and_eq_true] at h ⊢
+      simp only [tagOk, Bool.and_eq_true] at h ⊢
       refine ⟨⟨?_, h.1.2⟩, h.2⟩
       apply noPatIn_mono d.ce _ _ z
       simpa [List.append_assoc] using h.1.1
-    | var tight => rfl
-    | block w tight => rfl
+    | var ts =>
+      simp only [tagOk, Bool.and_eq_true] at h ⊢
+      obtain ⟨c, rr, hve, _⟩ := headOk_cons gd.ve
+      refine ⟨?_, h.2⟩
+      apply interiorOk_mono d.ve ts 0 _ z (by simp [hve])
+      simpa [List.append_assoc] using h.1
+    | block ts =>
+      simp only [tagOk, Bool.and_eq_true, Bool.not_eq_true'] at h ⊢
+      obtain ⟨c, rr, hbe, hw, _⟩ := headOk_cons gd.be
+      refine ⟨⟨?_, h.1.2⟩, ?_⟩
+      · apply interiorOk_mono d.be ts 0 _ z (by simp [hbe])
+        simpa [List.append_assoc] using h.1.1
+      · apply startsWith_dropWhile_mono rawName _ z ⟨c, by simp [hbe], hw⟩
+        simpa [List.append_assoc] using h.2
     | raw c ri l2 tight => rfl
+    | lineStmt ts =>
+      simp only [tagOk, Bool.and_eq_true] at h ⊢
+      exact ⟨⟨h.1.1, lineInteriorOk_mono ts 0 f z h.1.2⟩, lineFollow_mono f z h.2⟩
+    | lineComment body =>
+      simp only [tagOk, Bool.and_eq_true] at h ⊢
+      refine ⟨⟨h.1.1, commentFollow_mono f z h.1.2⟩, ?_⟩
+      have h2 := h.2
+      cases hb : body ++ f with
+      | nil => rfl
+      | cons c r =>
+        have : body ++ (f ++ z) = c :: (r ++ z) := by rw [← List.append_assoc, hb]; rfl
+        rw [this] at h2; exact h2
 
 /-- shortening the last text to a prefix keeps the template delimiter-free -/
-theorem tailFree_mapLast {d : Delims} (f : List Char → List Char) (hf : ∀ s, ∃ z, s = f s ++ z)
+theorem tailFree_mapLast {d : Delims} (gd : Good d) (f : List Char → List Char) (hf : ∀ s, ∃ z, s = f s ++ z)
     (tl : List (Tag × List Char)) :
-    ∀ t, tailFree d t tl = true →
-      tailFree d t (mapLastText f tl) = true ∧ ∃ z, unparseTail d tl = unparseTail d (mapLastText f tl) ++ z := by
+    ∀ first t, tailFree d first t tl = true →
+      tailFree d first t (mapLastText f tl) = true ∧
+        ∃ z, unparseTail d tl = unparseTail d (mapLastText f tl) ++ z := by
   induction tl with
-  | nil => intro t h; exact ⟨h, [], rfl⟩
+  | nil => intro first t h; exact ⟨h, [], rfl⟩
   | cons a tl ih =>
     obtain ⟨g, t'⟩ := a
-    intro t h
+    intro first t h
     cases tl with
     | nil =>
       obtain ⟨z, hz⟩ := hf t'
       simp only [tailFree, Bool.and_eq_true, mapLastText, unparseTail, List.append_nil] at h ⊢
-      obtain ⟨⟨⟨⟨h1, h2⟩, h3⟩, hc⟩, h4⟩ := h
+      obtain ⟨⟨⟨⟨⟨h1, h2⟩, h3⟩, hc⟩, hl⟩, h4⟩ := h
       have e1 : g.src d ++ t' = (g.src d ++ f t') ++ z := by rw [List.append_assoc, ← hz]
       rw [e1] at h1 h2
       rw [hz] at h3 hc h4
       rw [noStartIn_append] at h4
       simp only [Bool.and_eq_true, List.append_nil] at h4
-      exact ⟨⟨⟨⟨⟨noStartIn_mono _ _ z h1, ownLongest_mono _ _ z h2⟩, rawFree_mono g _ z h3⟩,
-        commentOk_mono g _ z hc⟩, noStartIn_mono _ [] z (by simpa using h4.1)⟩, z, e1⟩
+      exact ⟨⟨⟨⟨⟨⟨noStartIn_mono _ _ z h1, ownLongest_mono _ _ z h2⟩, rawFree_mono g _ z h3⟩,
+        tagOk_mono gd g _ z hc⟩, hl⟩, noStartIn_mono _ [] z (by simpa using h4.1)⟩, z, e1⟩
     | cons b tl =>
       have h' : noStartIn d t (unparseTail d ((g, t') :: b :: tl)) = true ∧
           ownLongest d (g.start d) (unparseTail d ((g, t') :: b :: tl)) = true ∧
           rawFree d g (t' ++ unparseTail d (b :: tl)) = true ∧
-          commentOk d g (t' ++ unparseTail d (b :: tl)) = true ∧ tailFree d t' (b :: tl) = true := by
+          tagOk d g (t' ++ unparseTail d (b :: tl)) = true ∧
+          (g.marker != .lineStmt || lineStartText first t) = true ∧ tailFree d false t' (b :: tl) = true := by
         have := h
         rw [tailFree] at this
         simp only [Bool.and_eq_true] at this
-        exact ⟨this.1.1.1.1, this.1.1.1.2, this.1.1.2, this.1.2, this.2⟩
-      obtain ⟨h1, h2, h3, hc, h4⟩ := h'
-      obtain ⟨ih1, z, hz⟩ := ih t' h4
+        exact ⟨this.1.1.1.1.1, this.1.1.1.1.2, this.1.1.1.2, this.1.1.2, this.1.2, this.2⟩
+      obtain ⟨h1, h2, h3, hc, hl, h4⟩ := h'
+      obtain ⟨ih1, z, hz⟩ := ih false t' h4
       have e1 : unparseTail d ((g, t') :: b :: tl) =
           unparseTail d ((g, t') :: mapLastText f (b :: tl)) ++ z := by
         simp only [unparseTail] at hz ⊢
@@ -240,14 +496,14 @@ theorem tailFree_mapLast {d : Delims} (f : List Char → List Char) (hf : ∀ s,
       rw [e1] at h1 h2
       rw [e2] at h3 hc
       refine ⟨?_, z, ?_⟩
-      · show tailFree d t ((g, t') :: mapLastText f (b :: tl)) = true
+      · show tailFree d first t ((g, t') :: mapLastText f (b :: tl)) = true
         rw [tailFree]
         simp only [Bool.and_eq_true]
-        exact ⟨⟨⟨⟨noStartIn_mono _ _ z h1, ownLongest_mono _ _ z h2⟩, rawFree_mono g _ z h3⟩,
-          commentOk_mono g _ z hc⟩, ih1⟩
+        exact ⟨⟨⟨⟨⟨noStartIn_mono _ _ z h1, ownLongest_mono _ _ z h2⟩, rawFree_mono g _ z h3⟩,
+          tagOk_mono gd g _ z hc⟩, hl⟩, ih1⟩
       · exact e1
 
-theorem delimFree_stripFinal {d : Delims} (tm : Tmpl) (h : delimFree d tm = true) :
+theorem delimFree_stripFinal {d : Delims} (gd : Good d) (tm : Tmpl) (h : delimFree d tm = true) :
     delimFree d (stripFinal tm) = true := by
   obtain ⟨head, tail⟩ := tm
   unfold delimFree at h ⊢
@@ -259,7 +515,7 @@ theorem delimFree_stripFinal {d : Delims} (tm : Tmpl) (h : delimFree d tm = true
     simp only [Bool.and_eq_true, List.append_nil] at h
     exact noStartIn_mono _ [] z (by simpa using h.1)
   | cons a tl =>
-    exact (tailFree_mapLast stripTrailingNl stripTrailingNl_prefix (a :: tl) head h).1
+    exact (tailFree_mapLast gd stripTrailingNl stripTrailingNl_prefix (a :: tl) true head h).1
 
 /-! ### the whole tokenizer -/
 
@@ -268,14 +524,14 @@ theorem lex_spec (cfg : Cfg) (vm bm : List Char) {d : Delims} (gd : Good d) (tm 
     renderRes vm bm (lex cfg d (findLL d) (unparse d tm)) = some (specRender cfg vm bm tm) := by
   unfold lex specRender
   simp only []
-  rw [prepare_unparse cfg gd tm]
+  rw [prepare_unparse cfg gd tm hfree]
   generalize htm : (if cfg.keep = true then tm else stripFinal tm) = tm'
   have hfree' : delimFree d tm' = true := by
     rw [← htm]; split
     · exact hfree
-    · exact delimFree_stripFinal tm hfree
+    · exact delimFree_stripFinal gd tm hfree
   have := lexGo_spec cfg vm bm gd tm'.tail tm'.head true [] 0 false ((unparse d tm').length + 1)
-    (Or.inl ⟨rfl, rfl⟩) hfree' (Nat.zero_le _) (by simp) (by simp [unparse])
+    (fun _ => Or.inl (Or.inl ⟨rfl, rfl⟩)) hfree' (Nat.zero_le _) (by simp) (by simp [unparse])
   simpa [unparse] using this
 
 end MJ.Lexer
